@@ -874,6 +874,12 @@ class QueryBuilder(Selectable, Term):
             else (table.replace_table(current_table, new_table) if isinstance(table, Term) else table)
             for table in self._from
         ]
+        self._using = [
+            new_table
+            if table == current_table
+            else (table.replace_table(current_table, new_table) if isinstance(table, Term) else table)
+            for table in self._using
+        ]
         self._insert_table = new_table if self._insert_table == current_table else self._insert_table
         self._update_table = new_table if self._update_table == current_table else self._update_table
 
